@@ -111,7 +111,8 @@ func (r *Value) Pull(ctx context.Context, opts ...ReadOption) <-chan *ValueChang
 			}
 		}
 
-		last := currentValue
+		// what the subscriber holds is the seed as it was sent: filtered like every later event
+		last := filter.FilterClone(currentValue)
 		for event := range on {
 			change := event.(*ValueChange).filter(filter)
 			if r.equivalence != nil && r.equivalence.Compare(last, change.Value) {
